@@ -33,8 +33,10 @@ open Wac Wac.Spec Wac.Props.C02
 theorem encode_wellscoped {g : GraphVal} {o : Opts} {s : Skeleton} (wf : WF g) (he : encode g o = .ok s) :
     WellScoped s = true := by
   obtain ⟨order, agg, ht, hagg⟩ := encode_ok_stages he
-  exact (encode_sinv (A := fun _ _ => True) wf ht hagg (fun _ _ => ⟨trivial, fun _ _ _ => trivial⟩)
-    (fun _ _ _ _ _ _ _ _ => trivial) he).1
+  obtain ⟨st1, st2, st3, hs⟩ := encode_stages ht he
+  exact (encode_sinv (A := fun _ _ => True) (C := fun _ _ => True) wf ht hagg
+    (fun _ _ => ⟨trivial, fun _ _ _ => trivial⟩) (fun _ _ _ _ _ _ _ _ => trivial) (fun _ _ _ _ _ => trivial)
+    (fun _ _ _ _ => trivial) hs).2.1
 
 /-- `encode_args_exact`: explicit arguments first (the argument edges of the node, in adjacency
     order), then the implicit ones (the imports of the package no edge provides, in world order) -/
@@ -43,11 +45,14 @@ theorem encode_args_exact {g : GraphVal} {o : Opts} {s : Skeleton} (wf : WF g) (
       ∃ n ∈ g.nodes, ∃ slot sat p, n.kind = .instantiation slot sat ∧ g.pkg? slot = some p ∧
         args.map (·.1) = n.args.map (·.1) ++ (unsatisfiedByArgs n p).map (·.name) := by
   obtain ⟨order, agg, ht, hagg⟩ := encode_ok_stages he
-  have h := (encode_sinv (A := fun _ _ => True) wf ht hagg (fun _ _ => ⟨trivial, fun _ _ _ => trivial⟩)
-    (fun _ _ _ _ _ _ _ _ => trivial) he).2.2
+  obtain ⟨st1, st2, st3, hs⟩ := encode_stages ht he
+  obtain ⟨hnamed, _, _, h, _⟩ := encode_sinv (A := fun _ _ => True) (C := fun _ _ => True) wf ht hagg
+    (fun _ _ => ⟨trivial, fun _ _ _ => trivial⟩) (fun _ _ _ _ _ _ _ _ => trivial) (fun _ _ _ _ _ => trivial)
+    (fun _ _ _ _ => trivial) hs
   intro c args hm
-  obtain ⟨n, hn, slot, sat, p, hk, hp, hnames⟩ := h c args hm
-  exact ⟨n, hn, slot, sat, p, hk, hp, by rw [hnames, wf.satOk n hn slot sat p hk hp]⟩
+  obtain ⟨n, hn, slot, sat, p, hk, hp, E, hargs, hE⟩ := h c args hm
+  refine ⟨n, hn, slot, sat, p, hk, hp, ?_⟩
+  rw [hargs, List.map_append, hE, hnamed n hn slot sat p hk hp, wf.satOk n hn slot sat p hk hp]
 
 /-- what `set_instantiation_argument` guarantees about the argument edges of an instantiation -/
 def ArgEdgesOk (g : GraphVal) : Prop :=
